@@ -31,6 +31,9 @@ type Disagreement struct {
 	Req    string `json:"request"`
 	Impl   string `json:"implementation"`
 	Model  string `json:"model"`
+	// Projections names the parts of the answer that differ (class, skeleton, value, calls,
+	// prints, tree, ...); "all" when the stream does not split its answers.
+	Projections []string `json:"projections"`
 }
 
 type OracleFailure struct {
@@ -52,6 +55,7 @@ type Summary struct {
 	Disagreements []Disagreement  `json:"disagreements"`
 	OracleFails   []OracleFailure `json:"oracle_failures"`
 	ModelErrors   int             `json:"model_errors"`
+	TotalDisagreements int        `json:"total_disagreements"`
 	WallS         float64         `json:"wall_s"`
 	Exhaustive    bool            `json:"exhaustive"`
 }
@@ -141,7 +145,7 @@ func runStream(s *Stream, modelBin string, seed int64, n int, thorough bool, cor
 			sum.ModelErrors++
 		}
 		if answers[i] != c.Want {
-			sum.Disagreements = append(sum.Disagreements, Disagreement{s.Name, c.Human, c.Req, c.Want, answers[i]})
+			sum.Disagreements = append(sum.Disagreements, Disagreement{s.Name, c.Human, c.Req, c.Want, answers[i], projectionsOf(c.Want, answers[i])})
 		}
 	}
 	sum.Distinct = len(distinct)
@@ -150,10 +154,19 @@ func runStream(s *Stream, modelBin string, seed int64, n int, thorough bool, cor
 	for i := 0; i < len(cases); i += step {
 		sum.Samples = append(sum.Samples, cases[i].Human+"  =>  "+cases[i].Want)
 	}
-	sort.Slice(sum.Disagreements, func(i, j int) bool { return len(sum.Disagreements[i].Req) < len(sum.Disagreements[j].Req) })
-	if len(sum.Disagreements) > 50 {
-		sum.Disagreements = sum.Disagreements[:50]
+	sum.TotalDisagreements = len(sum.Disagreements)
+	sort.SliceStable(sum.Disagreements, func(i, j int) bool { return len(sum.Disagreements[i].Req) < len(sum.Disagreements[j].Req) })
+	// keep the shortest few of every kind of request and of every projection signature
+	perKind := map[string]int{}
+	var kept []Disagreement
+	for _, d := range sum.Disagreements {
+		k := strings.SplitN(d.Human, " ", 2)[0] + "/" + strings.Join(d.Projections, ",")
+		if perKind[k] < 12 {
+			perKind[k]++
+			kept = append(kept, d)
+		}
 	}
+	sum.Disagreements = kept
 	if len(sum.OracleFails) > 200 {
 		sum.OracleFails = sum.OracleFails[:200]
 	}
@@ -167,4 +180,98 @@ func writeJSON(path string, v interface{}) error {
 		return err
 	}
 	return os.WriteFile(path, b, 0644)
+}
+
+// splitTop splits "(a b (c d) e)" into its top-level elements.
+func splitTop(s string) []string {
+	s = strings.TrimSpace(s)
+	if !strings.HasPrefix(s, "(") || !strings.HasSuffix(s, ")") {
+		return []string{s}
+	}
+	s = s[1 : len(s)-1]
+	var out []string
+	depth, start := 0, -1
+	for i := 0; i < len(s); i++ {
+		switch s[i] {
+		case '(':
+			if depth == 0 && start < 0 {
+				start = i
+			}
+			depth++
+		case ')':
+			depth--
+			if depth == 0 {
+				out = append(out, s[start:i+1])
+				start = -1
+			}
+		case ' ':
+			if depth == 0 && start >= 0 {
+				out = append(out, s[start:i])
+				start = -1
+			}
+		default:
+			if depth == 0 && start < 0 {
+				start = i
+			}
+		}
+	}
+	if start >= 0 {
+		out = append(out, s[start:])
+	}
+	return out
+}
+
+func filterEvents(evs string, kind string) string {
+	var xs []string
+	for _, e := range splitTop(evs) {
+		if strings.HasPrefix(e, "("+kind+" ") || e == "("+kind+")" {
+			xs = append(xs, e)
+		}
+	}
+	return strings.Join(xs, " ")
+}
+
+// projectionsOf names which parts of an (ok <val> <events>) / (fail <class> <events>) /
+// (err <class>) answer differ between implementation and model.
+func projectionsOf(impl, model string) []string {
+	a, b := splitTop(impl), splitTop(model)
+	if len(a) < 1 || len(b) < 1 {
+		return []string{"all"}
+	}
+	var ps []string
+	headA, headB := a[0], b[0]
+	if headA != headB {
+		return []string{"class"}
+	}
+	switch headA {
+	case "ok", "fail":
+		if len(a) != 3 || len(b) != 3 {
+			return []string{"all"}
+		}
+		if headA == "fail" && a[1] != b[1] {
+			ps = append(ps, "class")
+		}
+		if headA == "ok" && a[1] != b[1] {
+			if skeleton(a[1]) != skeleton(b[1]) {
+				ps = append(ps, "skeleton")
+			}
+			ps = append(ps, "value")
+		}
+		if filterEvents(a[2], "call") != filterEvents(b[2], "call") {
+			ps = append(ps, "calls")
+		}
+		if filterEvents(a[2], "print") != filterEvents(b[2], "print") {
+			ps = append(ps, "prints")
+		}
+		if filterEvents(a[2], "dbg") != filterEvents(b[2], "dbg") {
+			ps = append(ps, "dbg")
+		}
+		if len(ps) == 0 {
+			ps = []string{"all"}
+		}
+		return ps
+	case "err":
+		return []string{"class"}
+	}
+	return []string{"all"}
 }
